@@ -42,6 +42,15 @@ impl Probe for Recorder {
     }
 }
 
+/// Fails the first write to the published-object store (the CA's pre-save listener then refuses the events).
+struct FailOnce { armed: AtomicBool, hit: AtomicBool }
+impl Probe for FailOnce {
+    fn on_event(&self, ev: &Event) -> bool {
+        if ev.kind == "store" && ev.ns.contains("ca_objects") && self.armed.swap(false, Ordering::SeqCst) { self.hit.store(true, Ordering::SeqCst); return false }
+        true
+    }
+}
+
 #[derive(Clone, Debug)]
 struct CallResult { ca: String, kind: &'static str, roa: Option<String>, ok: bool }
 
@@ -83,10 +92,35 @@ fn run_case(args: &Args, run: u64, seed: u64, w: &mut CaseWriter, jsonl: &mut st
     let dir = args.out.join(format!("r{run}"));
     let mut opts = SysOpts::new(&dir);
     opts.mem_seed = seed; opts.disk = disk;
-    let sys = Arc::new(Sys::open(opts));
+    let sys = Arc::new(Sys::open(opts.clone()));
     sys.bootstrap().expect("bootstrap");
     for step in setup_steps() { let _ = step(&sys); }
     let _ = sys.pump(200, 0);
+    // Phase 0 (disk runs): a command whose pre-save listener fails, sent as the first command after a restart
+    // (cold cache). It must leave no trace: not in the log, not in the state readers see, no version consumed.
+    let mut atomic_ok = true;
+    let mut phase0 = json!(null);
+    let sys = if disk {
+        drop(sys);
+        let sys = Arc::new(Sys::open(opts.clone()));
+        let count = |sys: &Sys| -> u64 {
+            let store = sys.krill.storage().open(CASERVER_NS).unwrap();
+            let scope = Ident::boxed_from_string("b".to_string()).unwrap();
+            store.keys(Some(&scope), "command-").map(|k| k.len() as u64).unwrap_or(0)
+        };
+        let n0 = count(&sys);
+        let fail = Arc::new(FailOnce { armed: AtomicBool::new(true), hit: AtomicBool::new(false) });
+        set_probe(Some(fail.clone()));
+        let r = sys.routes_update("b", &["10.0.77.0/24 => 64999"], &[]);
+        set_probe(None);
+        let hit = fail.hit.load(Ordering::SeqCst);
+        let n1 = count(&sys);
+        let v1 = version_of(&sys, "b");
+        let visible = sys.ca("b").map(|ca| serde_json::to_value(&*ca).unwrap()["routes"]["map"].as_object().map(|m| m.keys().any(|k| k.ends_with("=> 64999"))).unwrap_or(false)).unwrap_or(false);
+        if hit && (r.is_ok() || n1 != n0 || v1 != n0 || visible) { atomic_ok = false; }
+        phase0 = json!({"listener_failure_injected": hit, "call_failed": r.is_err(), "commands_before": n0, "commands_after": n1, "version_seen_by_readers": v1, "change_visible": visible});
+        sys
+    } else { sys };
     let rec = Arc::new(Recorder { events: Mutex::new(Vec::new()), threads: Mutex::new(HashMap::new()), jitter: AtomicU64::new(seed), on: AtomicBool::new(true) });
     let versions_before: BTreeMap<String, u64> = CAS.iter().map(|h| (h.to_string(), version_of(&sys, h))).collect();
     set_probe(Some(rec.clone()));
@@ -201,7 +235,7 @@ fn run_case(args: &Args, run: u64, seed: u64, w: &mut CaseWriter, jsonl: &mut st
     let results = results.lock().unwrap().clone();
     let store = sys.krill.storage().open(CASERVER_NS).unwrap();
     let mut versions_consecutive = true;
-    let mut none_lost = true;
+    let mut none_lost = atomic_ok;
     let mut history_complete = true;
     let mut new_commands = 0;
     for h in CAS {
@@ -256,7 +290,7 @@ fn run_case(args: &Args, run: u64, seed: u64, w: &mut CaseWriter, jsonl: &mut st
         completed, versions_consecutive, none_lost, history_complete);
     let rec_json = json!({"index": w.total, "run": run, "backend": if disk {"disk"} else {"memory"}, "workers": n_workers, "ops_per_worker": n_ops, "threads_seen": n_threads,
         "probe_events": events.len(), "lock_events": lock_events.len(), "entity_trace": trace.len(), "locks": locks.map.len(), "nesting_edges": edges.len(),
-        "new_commands": new_commands, "completed": completed, "versions_consecutive": versions_consecutive, "none_lost_or_doubled": none_lost, "history_complete": history_complete,
+        "new_commands": new_commands, "phase0_listener_failure_after_restart": phase0, "completed": completed, "versions_consecutive": versions_consecutive, "none_lost_or_doubled": none_lost, "history_complete": history_complete,
         "nesting": edges.iter().map(|(a, b)| { let n = |x: &u64| locks.map.iter().find(|(_, id)| *id == x).map(|(s, _)| s.rsplit('/').next().unwrap_or(s).to_string()).unwrap_or_default(); format!("{} -> {}", n(a), n(b)) }).collect::<Vec<_>>(),
         "class": {"completed": completed}});
     use std::io::Write;
